@@ -30,7 +30,7 @@ func init() {
 			{ID: "C10-R2", Title: "callback wiring for every characteristic", Decides: "every change of every characteristic reaches the fan-out with the right originator", Floor: 5, Run: c10r2},
 			{ID: "C10-R3", Title: "unchanged value => no callbacks; compared value = stored value", Decides: "no event when the value did not change", Floor: 3, Run: c10r3},
 			{ID: "C10-R4", Title: "subscription state per session, keyed by the characteristic object", Decides: "never-subscribed / unsubscribed connections receive none", Floor: 6, Run: c10r4},
-			{ID: "C10-R5", Title: "closed connections leave the recipient set", Decides: "closed connections receive none", Floor: 2, Run: c10r5},
+			{ID: "C10-R5", Title: "closed connections leave the recipient set; a recipient that closes during the fan-out does not abort it", Decides: "closed connections receive none", Floor: 2, Run: c10r5},
 			{ID: "C10-R6", Title: "the fan-out has no side effects on characteristics", Decides: "exactly one event carrying the new value; none to the originator", Floor: 1, Run: fanoutHasNoSideEffects},
 		},
 	})
@@ -582,6 +582,7 @@ func c10r4(c *core.Ctx) {
 
 func c10r5(c *core.Ctx) {
 	p := c.P
+	closingRecipientDoesNotAbortFanout(c)
 	f := p.Func("hap", "(*Connection).Close")
 	if f == nil {
 		c.Undecided("Connection.Close", token.NoPos, "not found")
@@ -660,5 +661,32 @@ func c10r5(c *core.Ctx) {
 			}
 		})
 		c.Check(ok, "active-connections-from-sessions", g.Pos(), "recipients are the connections of the stored sessions", "ActiveConnections does not enumerate the stored sessions' connections")
+	}
+}
+
+// closingRecipientDoesNotAbortFanout: the cryptographer a write uses is known to be there. Connection.Write asks the session for its
+// encrypter and, if there is one, calls EncryptedWrite, which asks again after it has waited for the write lock. In between the
+// server's goroutine may close the connection (the peer hung up), which removes the session: the second answer is nil. A method call
+// on it panics — in the goroutine that changed the value: the application's own (the process dies), or the handler of the
+// controller that wrote the value (its request is not answered and the subscribers behind the closing one get no event).
+// Every Encrypt / Decrypt on the answer of getEncrypter / getDecrypter in the write path is dominated by a nil test of that answer.
+func closingRecipientDoesNotAbortFanout(c *core.Ctx) {
+	p := c.P
+	n := 0
+	for _, name := range []string{"EncryptedWrite", "Write"} {
+		f := p.Func("hap", "(*Connection)."+name)
+		if f == nil {
+			continue
+		}
+		for _, s := range core.FindCalls(f, func(i ssa.Instruction) bool { return core.IsInvoke(i, mod+"/crypto.Encrypter", "Encrypt") }) {
+			n++
+			recv := core.CallOf(s).Value
+			checked := core.Dominated(s, core.NonNilFact(func(v ssa.Value) bool { return v == recv })) || core.KnownNonNil(recv)
+			c.Check(checked, "encrypter-nil-checked@"+fname(f), posOf(s), "the encrypter that is used was tested for nil after it was looked up",
+				"Encrypt is called on an encrypter that was looked up again and not tested: when the connection is closed between Connection.Write's test and this lookup (the peer hangs up while an event is on its way) the session is gone, the lookup answers nil and the goroutine that changed the value panics — the application's own, or the handler that still has the other subscribers to notify")
+		}
+	}
+	if n == 0 {
+		c.Undecided("encrypter-nil-checked", token.NoPos, "no Encrypt call in the write path of hap.Connection")
 	}
 }
